@@ -1227,6 +1227,14 @@ def fixed_cases():
          "function with a singleton extraction called through a variable"),
         ("singleton-fn-value-arity", "$Lamp = { level: int };\nfn bump(l: $Lamp, delta: int) -> int { l.level += delta; l.level }\nfn main() { let step = bump; println(step(5, 6)); }\n", True,
          "the same with a surplus argument"),
+        # a singleton the host does not provide is created from the default value of its type: every singleton type has one
+        ("SG1-fn", "$S = fn() -> int;\nfn main() { println(1); }\n", True, "singleton of a function type"),
+        ("SG1-field-fn", "$S = { a: int, f: fn(x: int) -> null };\nfn main() { println(1); }\n", True, "singleton with a function field"),
+        ("SG1-nested-fn", "$S = { a: { b: { c: fn() -> int } } };\nfn use(s: $S) -> int { 1 }\nfn main() { println(use()); }\n", True, "function type three objects deep"),
+        ("SG1-alias-fn", "type F = fn() -> int;\n$S = { f: F };\nfn main() { println(1); }\n", True, "function type behind an alias"),
+        ("SG1-any", "$S = { a: any };\nfn main() { println(1); }\n", True, "singleton with a field of type any"),
+        ("SG1-list-option-ok", "$S = { a: [fn() -> int], o: ?fn() -> int, k: int, d: { ? }, r: range };\nfn use(s: $S) -> int { s.a.len() + s.k }\nfn main() { println(use()); }\n", False,
+         "function types inside a list / an option have a default value (empty list, none)"),
         # the identifier of a catch block lives in the catch block only
         ("catch-ident-after", 'fn main() { try { throw("x"); } catch e { println(e.message); } println(e.message); }\n', True, "catch identifier used after the try expression"),
         ("catch-ident-after-fn", 'fn f() -> str { let r = try { "a" } catch err { err.message }; err.message }\nfn main() { println(f()); }\n', True, "catch identifier used after the try expression (function tail)"),
